@@ -86,7 +86,16 @@ def random_grammar(rnd, nT=None, nN=None, max_alts=3, max_len=3, p_term=0.55, p_
         for r in rules:
             if rnd.random() < 0.2:
                 r['prec'] = rnd.randrange(nT)
-    return dict(terms=terms, nonterms=nonterms, precs=precs, rules=rules, start=0)
+    g = dict(terms=terms, nonterms=nonterms, precs=precs, rules=rules, start=0)
+    if implicit:
+        g['implicit_start'] = True        # no %start line: the start symbol is the nonterminal called start
+    if rnd.random() < 0.12:
+        # the last rule group is not closed by `;`; half of the time its last alternative is an empty one
+        g['open_end'] = True
+        last = rules[-1]['lhs']
+        if rnd.random() < 0.5 and not any(r['lhs'] == last and not r['rhs'] for r in rules):
+            rules.append(dict(lhs=last, rhs=[], prec=None, c=rnd.randint(0, 9), coef=[]))
+    return g
 
 
 def twin_actions(g, rnd):
@@ -214,6 +223,25 @@ def many_token_grammar(rnd, nkw=None):
     R(0, [k, ('n', 1)], 3)
     for i in range(nkw):
         R(1, [T('K%03d' % i)], i)
+    return dict(terms=terms, nonterms=nonterms, precs=[], rules=rules, start=0, big=True)
+
+
+def very_long_rule_grammar(rnd, odd=False):
+    """A rule with more than 256 right-hand-side symbols (a record of 256 fixed fields and a tail): dot positions beyond one byte.
+    even rule index: the symbol after the 256th is a nonterminal whose first rule is written directly after the long one;
+    odd rule index: the long rule is right-recursive at that position."""
+    k = 256 + rnd.randint(0, 2) * 0
+    terms = [dict(name=n, lit=None, tag='v0', num=None, declared=True) for n in ('F', 'X', 'Y')]
+    if odd:
+        nonterms = [dict(name='record', tag='v0')]
+        rules = [dict(lhs=0, rhs=[('t', 0)] * k + [('n', 0)], prec=None, c=1, coef=[0] * k + [1]),
+                 dict(lhs=0, rhs=[('t', 1)], prec=None, c=2, coef=[1])]
+        return dict(terms=terms, nonterms=nonterms, precs=[], rules=rules, start=0, big=True)
+    nonterms = [dict(name='file', tag='v0'), dict(name='record', tag='v0'), dict(name='tail', tag='v0')]
+    rules = [dict(lhs=0, rhs=[('n', 1)], prec=None, c=0, coef=[1]),
+             dict(lhs=1, rhs=[('t', 0)] * k + [('n', 2)], prec=None, c=1, coef=[0] * k + [1]),
+             dict(lhs=2, rhs=[('t', 1)], prec=None, c=2, coef=[1]),
+             dict(lhs=2, rhs=[('t', 2)], prec=None, c=3, coef=[1])]
     return dict(terms=terms, nonterms=nonterms, precs=[], rules=rules, start=0, big=True)
 
 
@@ -584,12 +612,14 @@ def render_rules(g, action=None):
             alts.append('%s%s%s%s%s' % (body, COMMENTS[(idx * 5 + 1) % len(COMMENTS)] if idx % 3 == 1 else '', pr, act,
                                       COMMENTS[(idx * 3) % len(COMMENTS)] if idx % 4 == 2 else ''))
         lhs = g['nonterms'][g['rules'][run[0]]['lhs']]['name']
+        # the last group may be left open (no `;` before the second %%), as the examples of the repository do
+        end = '\n' if (g.get('open_end') and k == len(runs) - 1) else ' ;\n'
         if k % 3 == 2:
-            for a in alts:
-                out.append('%s : %s ;\n' % (lhs, a))
+            for ai, a in enumerate(alts):
+                out.append('%s : %s%s' % (lhs, a, end if ai == len(alts) - 1 else ' ;\n'))
         else:
-            out.append('%s : %s ;\n' % (lhs, '\n  | '.join(alts)))
-    return ''.join(out) + '/* end of the rules */\n'
+            out.append('%s : %s%s' % (lhs, '\n  | '.join(alts), end))
+    return ''.join(out) + ('' if g.get('open_end') else '/* end of the rules */\n')
 
 
 # comments as grammar authors write them; every one is complete, so the text between two of them is always grammar text
